@@ -7,6 +7,12 @@
      - a node inside its leader lease ignores a MsgVote/MsgPreVote of a higher term altogether
        (raft.go Step, "inLease"): the message is simply not delivered (the validator accepts the
        no-op [PvTick] for such a delivery),
+   Leadership transfer (RawNode.TransferLeader) is covered the same way: the leader's
+   leadTransferee is not part of the model; a leader may send MsgTimeoutNow ([PT]) to anyone at
+   any time, any node may forward a MsgTransferLeader ([PL]; it carries no authority), a leader
+   may drop a proposal (transfer in progress: the validator accepts the no-op); the receiver of a
+   MsgTimeoutNow campaigns for real at once ([hup], no pre-vote).  The forced MsgVote of such a
+   campaign only bypasses the lease, which is a choice of the environment anyway;
    so the model says nothing about WHEN they happen (no election-elapsed clock, no RecentActive
    flags): safety is proved for every choice; liveness of CheckQuorum is not covered.
 
@@ -33,10 +39,12 @@ Import ListNotations.
 Inductive pmsg : Type :=
 | PB (m : msg)
 | PV (from to term logterm index : nat)          (* MsgPreVote *)
-| PW (from to term : nat) (reject : bool).       (* MsgPreVoteResp *)
+| PW (from to term : nat) (reject : bool)        (* MsgPreVoteResp *)
+| PT (from to term : nat)                        (* MsgTimeoutNow (leadership transfer) *)
+| PL (from to term : nat).                       (* MsgTransferLeader, forwarded to the leader; from = the transferee *)
 
 Definition pmsg_to (m : pmsg) : nat :=
-  match m with PB b => m_to b | PV _ t _ _ _ => t | PW _ t _ _ => t end.
+  match m with PB b => m_to b | PV _ t _ _ _ => t | PW _ t _ _ => t | PT _ t _ => t | PL _ t _ => t end.
 
 Definition pmsg_eqb (a b : pmsg) : bool :=
   match a, b with
@@ -44,6 +52,8 @@ Definition pmsg_eqb (a b : pmsg) : bool :=
   | PV f1 t1 tm1 lt1 i1, PV f2 t2 tm2 lt2 i2 =>
       (f1 =? f2) && (t1 =? t2) && (tm1 =? tm2) && (lt1 =? lt2) && (i1 =? i2)
   | PW f1 t1 tm1 r1, PW f2 t2 tm2 r2 => (f1 =? f2) && (t1 =? t2) && (tm1 =? tm2) && Bool.eqb r1 r2
+  | PT f1 t1 tm1, PT f2 t2 tm2 => (f1 =? f2) && (t1 =? t2) && (tm1 =? tm2)
+  | PL f1 t1 tm1, PL f2 t2 tm2 => (f1 =? f2) && (t1 =? t2) && (tm1 =? tm2)
   | _, _ => false
   end.
 
@@ -126,6 +136,18 @@ Section NodePV.
           | VotePending => ((n1, true), [])
           end
         else (st, [])
+    | PvRecv (PT _ _ mt) =>
+        (* MsgTimeoutNow: a follower starts a REAL election at once (campaignTransfer never uses
+           pre-vote); candidates, pre-candidates and leaders ignore it *)
+        if mt <? n_term n then (st, [])
+        else if n_term n <? mt then ((hup c0 c1 id (become_follower id mt None n), false), [])
+        else match n_role n with
+             | Follower => if pre then (st, []) else ((hup c0 c1 id n, false), [])
+             | _ => (st, [])
+             end
+    | PvRecv (PL _ _ mt) =>
+        (* a forwarded MsgTransferLeader: only its term matters to what is observed *)
+        if n_term n <? mt then ((become_follower id mt None n, false), []) else (st, [])
     end.
 
   Definition exec_pv (ev : pevent) (st : pstate) : pstate * list pmsg :=
@@ -140,6 +162,8 @@ Section NodePV.
         snd st && (from =? id) && (term =? S (n_term (fst st)))
         && (idx =? last_index (n_log (fst st))) && (lt =? last_term (n_log (fst st)))
     | PW _ _ _ _ => false
+    | PT from _ term => role_eqb (n_role (fst st)) Leader && (from =? id) && (term =? n_term (fst st))
+    | PL _ _ term => term =? n_term (fst st)
     end.
 End NodePV.
 
